@@ -526,6 +526,37 @@ func mxSecurity(commonError bool) mxObj {
 	return d
 }
 
+// mxWebhooks: webhooks (requests the generated WebhookClient sends to a target URL, served by the generated
+// WebhookServer) with parameters, bodies of several media types and several response variants; one path operation,
+// because a document needs one.
+func mxWebhooks() mxObj {
+	small := mxObj{"type": "object", "required": []any{"id"}, "properties": mxObj{"id": mxObj{"type": "string"}, "n": mxObj{"type": "integer", "format": "int64"}, "when": mxObj{"type": "string", "format": "date-time"}, "tags": mxObj{"type": "array", "items": mxObj{"type": "string"}}}}
+	js := func(schema mxObj) mxObj { return mxObj{"application/json": mxObj{"schema": schema}} }
+	d := mxDoc("matrix: webhooks", mxObj{"/ping": mxObj{"get": mxObj{"operationId": "ping", "responses": mxOK()}}}, mxObj{"schemas": mxObj{"Event": small}})
+	ref := mxObj{"$ref": "#/components/schemas/Event"}
+	d["webhooks"] = mxObj{
+		"created": mxObj{"post": mxObj{"operationId": "hook_created", "requestBody": mxObj{"required": true, "content": js(ref)}, "responses": mxOK()}},
+		"changed": mxObj{"put": mxObj{"operationId": "hook_changed", "parameters": []any{
+			mxObj{"name": "X-Delivery", "in": "header", "required": true, "schema": mxObj{"type": "string", "format": "uuid"}},
+			mxObj{"name": "attempt", "in": "query", "schema": mxObj{"type": "integer", "format": "int32"}},
+			mxObj{"name": "kinds", "in": "query", "schema": mxObj{"type": "array", "items": mxObj{"type": "string"}}},
+		}, "requestBody": mxObj{"required": true, "content": js(mxObj{"type": "array", "items": ref})}, "responses": mxObj{
+			"200": mxObj{"description": "ok", "content": js(ref)},
+			"202": mxObj{"description": "later"},
+			"4XX": mxObj{"description": "bad", "content": js(mxObj{"type": "object", "required": []any{"message"}, "properties": mxObj{"message": mxObj{"type": "string"}}})},
+		}}},
+		"removed": mxObj{"delete": mxObj{"operationId": "hook_removed", "parameters": []any{
+			mxObj{"name": "id", "in": "query", "required": true, "schema": mxObj{"type": "string"}},
+		}, "responses": mxObj{"204": mxObj{"description": "gone"}}}},
+		"upload": mxObj{"post": mxObj{"operationId": "hook_upload", "requestBody": mxObj{"required": true, "content": mxObj{
+			"application/octet-stream":          mxObj{"schema": mxObj{"type": "string", "format": "binary"}},
+			"application/x-www-form-urlencoded": mxObj{"schema": mxObj{"type": "object", "required": []any{"id"}, "properties": mxObj{"id": mxObj{"type": "string"}, "n": mxObj{"type": "integer"}}}},
+		}}, "responses": mxOK()}},
+	}
+	d["openapi"] = "3.1.0"
+	return d
+}
+
 // matrixSpecs writes the matrix documents into the scratch directory and returns their paths.
 func matrixSpecs(s *build.Scratch, all bool) []string {
 	_ = all
@@ -538,7 +569,7 @@ func WriteMatrix(dir string) []string {
 	docs := []struct {
 		name string
 		doc  mxObj
-	}{{"mx_params", mxParams()}, {"mx_bodies", mxBodies()}, {"mx_responses", mxResponses()}, {"mx_security", mxSecurity(false)}, {"mx_secerr", mxSecurity(true)}}
+	}{{"mx_params", mxParams()}, {"mx_bodies", mxBodies()}, {"mx_responses", mxResponses()}, {"mx_security", mxSecurity(false)}, {"mx_secerr", mxSecurity(true)}, {"mx_webhooks", mxWebhooks()}}
 	var out []string
 	for _, d := range docs {
 		b, err := json.MarshalIndent(d.doc, "", " ")
